@@ -148,11 +148,33 @@ def _is_cc_frame(filename):
     return os.path.realpath(filename).startswith(pkg + os.sep)
 
 
+class CaseTimeout(BaseException):
+    """Raised by the per-case watchdog (a BaseException, so that no 'except Exception' swallows it)."""
+
+
+CASE_TIMEOUT_S = float(os.environ.get("VERIF_CASE_TIMEOUT", "600"))
+
+
+def _on_timer(signum, frame):
+    raise CaseTimeout()
+
+
 def execute(mod, case):
-    """Run the interpreter on one descriptor. Violations are reported in the Result."""
+    """Run the interpreter on one descriptor. Violations are reported in the Result.
+
+    A case that runs longer than CASE_TIMEOUT_S (hundreds of times the normal cost) is abandoned and labelled
+    'case-timeout': the run is then inconclusive (exit 2), never a violation."""
+    import signal
+    import threading
     res = Result()
+    watchdog = threading.current_thread() is threading.main_thread() and hasattr(signal, "setitimer")
+    if watchdog:
+        previous = signal.signal(signal.SIGALRM, _on_timer)
+        signal.setitimer(signal.ITIMER_REAL, CASE_TIMEOUT_S, CASE_TIMEOUT_S)
     try:
         mod.run_case(case, res)
+    except CaseTimeout:
+        res.label("case-timeout")
     except HarnessError:
         raise
     except Exception as exc:  # pylint: disable=broad-except
@@ -164,6 +186,10 @@ def execute(mod, case):
             res.fail("crash", site, "uncaught exception out of the code under test: %r" % (exc,))
         else:
             res.harness = "".join(traceback.format_exception(type(exc), exc, exc.__traceback__))[-3000:]
+    finally:
+        if watchdog:
+            signal.setitimer(signal.ITIMER_REAL, 0)
+            signal.signal(signal.SIGALRM, previous)
     return res
 
 
@@ -473,7 +499,7 @@ def run_check(prop_id, tier, seed, replay=None, shard=None, out=None, cases=None
             "cases_per_shard": n,
             "corpus_replayed": corpus_n,
             "exhaustive_subdomain_cases": stats.exhaustive_cases,
-            "skipped_after_time_budget": skipped,
+            "skipped_after_time_budget": skipped + stats.labels.get("case-timeout", 0),
             "missing_required_classes": missing,
         },
         "assumptions": list(getattr(mod, "ASSUMPTIONS", [])),
@@ -495,7 +521,10 @@ def run_check(prop_id, tier, seed, replay=None, shard=None, out=None, cases=None
             print("FAIL %s (x%d): %s" % (sig, info["count"], info["msg"]))
             print("VIOLATION property=%s replay=%s" % (prop_id, rel))
         return 1
-    if stats.harness or shard_fail or missing:
+    timeouts = stats.labels.get("case-timeout", 0)
+    if timeouts:
+        sys.stderr.write("INCONCLUSIVE %d case(s) exceeded the per-case limit of %ds and were abandoned\n" % (timeouts, CASE_TIMEOUT_S))
+    if stats.harness or shard_fail or missing or timeouts:
         for h in stats.harness:
             sys.stderr.write("HARNESS ERROR in case %s\n%s\n" % (json.dumps(h["case"])[:2000], h["trace"]))
         for s in shard_fail:
